@@ -954,23 +954,41 @@ fn worker(ctx: Sink, root: std::path::PathBuf, generation: u32, items: std::sync
                         x.clone()
                     } else {
                         let mut cur: Vec<Stmt> = steps.clone();
-                        let mut budget_runs = 24;
-                        for si in 0..cur.len() {
-                            for pi in 0..cur[si].slots.len() {
-                                let Some(ben) = cur[si].slots[pi].benign.clone() else { continue };
-                                if cur[si].slots[pi].v == ben || budget_runs == 0 {
-                                    continue;
+                        let mut budget_runs = 12;
+                        let still_fails = |tw: &mut Twins, cand: &[Stmt]| -> bool {
+                            match run_experiment(tw, cand, &style, api) {
+                                Some(o) => o.fails.iter().any(|(s2, a2, l2, _)| *s2 == step && *a2 == assertion && *l2 == label),
+                                None => false,
+                            }
+                        };
+                        // first all replaceable parameters at once: most divergences do not depend on any value
+                        let mut all = cur.clone();
+                        for st in all.iter_mut() {
+                            for sl in st.slots.iter_mut() {
+                                if let Some(ben) = sl.benign.clone() {
+                                    if sl.v != ben {
+                                        sl.v = ben;
+                                        sl.class = "benign".into();
+                                    }
                                 }
-                                budget_runs -= 1;
-                                let mut cand = cur.clone();
-                                cand[si].slots[pi].v = ben;
-                                cand[si].slots[pi].class = "benign".into();
-                                let still = match run_experiment(&mut tw, &cand, &style, api) {
-                                    Some(o) => o.fails.iter().any(|(s2, a2, l2, _)| *s2 == step && *a2 == assertion && *l2 == label),
-                                    None => false,
-                                };
-                                if still {
-                                    cur = cand;
+                            }
+                        }
+                        if still_fails(&mut tw, &all) {
+                            cur = all;
+                        } else {
+                            for si in 0..cur.len() {
+                                for pi in 0..cur[si].slots.len() {
+                                    let Some(ben) = cur[si].slots[pi].benign.clone() else { continue };
+                                    if cur[si].slots[pi].v == ben || budget_runs == 0 {
+                                        continue;
+                                    }
+                                    budget_runs -= 1;
+                                    let mut cand = cur.clone();
+                                    cand[si].slots[pi].v = ben;
+                                    cand[si].slots[pi].class = "benign".into();
+                                    if still_fails(&mut tw, &cand) {
+                                        cur = cand;
+                                    }
                                 }
                             }
                         }
